@@ -265,6 +265,9 @@ inline void prolonged_pause() {
 // because for different configurations this number of pauses + yields
 // will be calculated in different amount of CPU cycles
 // for example use rdtsc for it
+#if ONETBB_VERIF_SIM
+extern "C" int sim_spin_knob(int dflt);
+#endif
 class stealing_loop_backoff {
     const int my_pause_threshold;
     const int my_yield_threshold;
@@ -282,6 +285,10 @@ public:
         , my_yield_count{}
     {}
     bool pause() {
+#if ONETBB_VERIF_SIM
+        // verification hook: the simulator may shorten the spin phase ("spin k times before sleeping")
+        { int k = sim_spin_knob(-1); if (k >= 0) { d0::yield(); return my_yield_count++ >= k; } }
+#endif
         prolonged_pause();
         if (my_pause_count++ >= my_pause_threshold) {
             my_pause_count = my_pause_threshold;
